@@ -333,6 +333,7 @@ let conn_mode ?(tlsmode=false) cases out =
              | ["clientcert"; _] -> ()
              | ["bighello"; _] -> ()
              | ["wcap"; _] -> ()
+             | ["wzero"; _] -> ()
              | ["auth"; "ok"] -> c.auth <- None
              | ["auth"; v] -> (match split_colon v with ["rej"; tag] -> c.auth <- Some (n_of_dec tag) | _ -> fail_parse ("bad auth " ^ v))
              | _ -> fail_parse ("bad cfg " ^ kv)
